@@ -95,7 +95,9 @@ def spec_verdict(spec, plugin):
     return bool(ok)
 
 
-TYPES = [("u", 8), ("u", 40), ("str",), ("enum", "E"), ("struct", "A"), ("arr", ("u", 8), 3), ("arr", ("u", 16), 5)]
+# widths chosen so that sums land on both sides of, and right next to, the 64-bit limit of the C size rule (64, 65, 71, 72 ...)
+TYPES = [("u", 8), ("u", 40), ("str",), ("enum", "E"), ("struct", "A"), ("arr", ("u", 8), 3), ("arr", ("u", 16), 5),
+         ("u", 1), ("u", 64), ("u", 24), ("u", 7), ("u", 8), ("u", 40)]
 
 
 def random_spec(rng):
@@ -109,6 +111,27 @@ def random_spec(rng):
     services = [rng.choice(["s", "t"]) for _ in range(rng.choice([0, 1, 2]))]
     devices = [(rng.choice(["d", "e"]), rng.choice([None, [], ["s"], ["t"], ["s", "t"]])) for _ in range(rng.choice([0, 0, 1, 2]))]
     return {"structs": structs, "enums": enums, "impls": impls, "services": services, "devices": devices}
+
+
+def boundary_spec(rng):
+    """An otherwise well-formed tree in which only the C size rule can decide: one CAN-bound struct whose distinct fields add up to a
+    total right at the 64-bit limit (56 .. 73), split at random."""
+    total = rng.choice([56, 63, 64, 64, 65, 65, 66, 67, 70, 71, 71, 72, 73])
+    parts, left = [], total
+    for k in range(rng.randint(0, 3)):
+        if left <= 1:
+            break
+        w = rng.randint(1, min(64, left - 1))
+        parts.append(w); left -= w
+    while left > 64:
+        parts.append(64); left -= 64
+    if left:
+        parts.append(left)
+    rng.shuffle(parts)
+    fields = [(f"f{i}", ("u", w)) for i, w in enumerate(parts)]
+    structs = [("A", fields)] + ([("B", [("x", ("u", 8))])] if rng.random() < 0.5 else [])
+    impls = [("A", "can", "A", rng.choice([None, 1, 7]))] + ([("B", "can", "B", 2)] if len(structs) > 1 and rng.random() < 0.5 else [])
+    return {"structs": structs, "enums": [], "impls": impls, "services": [], "devices": []}
 
 
 def small_scope():
@@ -134,13 +157,13 @@ def run(chk):
     quick = chk.tier == "quick"
     broken = chk.proof_obligations(["Corr/Verifier.vo"])
     chk.coverage["rule"] = (
-        "trees built directly as FcpV2 objects from small alphabets (to force collisions): random trees, and in the thorough tier an "
+        "trees built directly as FcpV2 objects from small alphabets (to force collisions): random trees, otherwise well-formed trees whose one CAN-bound struct totals 56..73 bits (only the size rule decides), and in the thorough tier an "
         "exhaustive small scope (<=2 structs x <=2 fields, <=1 enum, <=2 impls, <=1 device); each x {no plug-in, dbc, can_c} and a random "
         "permutation of every declaration list; non-trivial = at least two declarations; distinct = (tree, plug-in)")
-    specs = [random_spec(chk.rng) for _ in range(1200 if quick else 12000)]
+    specs = [random_spec(chk.rng) for _ in range(1200 if quick else 12000)] + [boundary_spec(chk.rng) for _ in range(120 if quick else 1500)]
     if not quick:
         specs += list(small_scope())
-        chk.coverage["exhaustive_small_scope_trees"] = len(specs) - 12000
+        chk.coverage["exhaustive_small_scope_trees"] = len(specs) - 13500
     cases, meta, fails = [], [], []
     for spec in specs:
         try:
